@@ -423,7 +423,7 @@ def run(ctx):
                 "messages (incl. empty) and, for RSA, all six algorithm names; verification of the genuine signature under "
                 "every counterpart, under other data, under other keys of the class, with bits flipped inside the signature "
                 "value, and ~60 structural mutations (truncation, extension, any-bit flips, 18 algorithm names incl. invalid "
-                "UTF-8, lying length prefixes, wrong blob lengths, RSA zero padding variants, signature/data boundary splices (sig(prefix||data)||prefix against data, sig(data)||data against the empty message, for every class), over-long RSA blobs (genuine signature with 1..37 leading zero bytes / other bytes in front / bytes behind: must be rejected), ECDSA negative / zero / oversized "
+                "UTF-8, lying length prefixes, wrong blob lengths, RSA zero padding variants, RSA relabelling over all label x digest pairs (verifies iff same digest), signature/data boundary splices (sig(prefix||data)||prefix against data, sig(data)||data against the empty message, for every class), over-long RSA blobs (genuine signature with 1..37 leading zero bytes / other bytes in front / bytes behind: must be rejected), ECDSA negative / zero / oversized "
                 "/ non-minimal / truncated inner integers).  Every call is one case; non-trivial = distinct")
     ctx.trusted += ["recording shims around the library objects (PubProxy/PrivProxy, VerifyKey.verify patch) in this harness",
                     "cryptography / PyNaCl signature verification and key derivation (oracles)"]
@@ -541,6 +541,15 @@ def run(ctx):
                                 one(o, lab, k["label"], b"", build(name, blob + data), "splice-sig-then-data-vs-empty", expect=False)
                                 one(o, lab, k["label"], data[len(data) // 2:], build(name, blob + data[:len(data) // 2]),
                                     "splice-sig-then-half-data", expect=False)
+                    if ci == 0:
+                        # relabelling: the same signature blob under every RSA algorithm name verifies exactly when the
+                        # label's digest is the one the signature was made with
+                        H = type(signer).HASHES
+                        for lbl in H:
+                            same = H[lbl] is H[alg or signer.get_name()]
+                            for lab, o in objs[:2]:
+                                one(o, lab, k["label"], data, build(lbl.encode(), blob), "relabel-%s" % ("same-digest" if same else "other-digest"),
+                                    expect=same)
                     if ci == 0 and alg is None and data:
                         # PuTTY-style: a genuine signature whose leading zero byte(s) were dropped must still verify
                         for t in range(4000):
